@@ -32,6 +32,11 @@ def adv_nodes(rng, forbid=(), max_lines=4, empty_lines=True, styles=False):
     nodes = []
     if empty_lines and rng.random() < 0.1:
         nodes.append(("B",))
+    elif empty_lines and not forbid and rng.random() < 0.08:
+        # the caption opens with an empty line spelled as a text node without visible characters
+        nodes += [("T", rng.choice(["", "", " ", "\u00a0"])), ("B",)]
+        if rng.random() < 0.3:
+            nodes += [("T", ""), ("B",)]
     for i, ln in enumerate(lines):
         if i:
             nodes.append(("B",))
